@@ -362,6 +362,15 @@ func c04Events() []string {
 }
 
 func runC04(r *mc.Report, e *Env) {
+	base := c04TaskCount(e.Thorough()) - c04ConcTasks()
+	for t := 0; t < c04ConcTasks(); t++ {
+		if e.Of <= 1 || e.Shard == base+t {
+			runC04Conc(r, e, t)
+		}
+	}
+	if e.Of > 1 && e.Shard >= base {
+		return
+	}
 	r.Rule = "BFS: every transition is one real operation on a fresh pebble-backed store reached by replaying its history, compared with a reference map; live-slice family: every op sequence of length <= d after a Get whose slice is retained; non-trivial = all; distinct = distinct canonical store states / observation digests"
 	r.Assume("pebble is opened with a 64 kB memtable and a 64 kB block cache so that buffers are recycled within short histories; capacity 1 MB")
 	r.Assume("ids of other lengths than 32 are identified with their zero-padded / truncated 32-byte form (as the statement allows)")
@@ -460,10 +469,13 @@ func c04TaskCount(thorough bool) int {
 	if thorough {
 		n = 9 * len(c04Events())
 	}
-	return n + 18 // live-slice units
+	return n + 18 + c04ConcTasks() // live-slice units, concurrent scenarios
 }
 
 func replayC04(r *mc.Report, e *Env, raw json.RawMessage) {
+	if replayC04Conc(r, raw) {
+		return
+	}
 	var c c04Case
 	if err := json.Unmarshal(raw, &c); err != nil {
 		panic(err)
